@@ -66,6 +66,11 @@ def run(ctx):
             plans[0][0][1] = [nxt, nxt + 1]; nxt += 2
         delays = [rng.choice([0, 0, 0.002, 0.01]) for _ in range(k)]
         cases.append({"fmt": ["fb", "npz", "tfrec"][i % 3], "eps": eps, "plans": plans, "delays": delays})
+    # more writers than CPU cores (every writer must still run, in its own process slot or queued)
+    import os
+    kbig = (os.cpu_count() or 4) + 2
+    cases.append({"fmt": "fb", "eps": 2, "plans": [[[w % 2, [1000 + 2 * w, 1001 + 2 * w] if w % 5 else [1000 + 2 * w]]] for w in range(kbig)],
+                  "delays": [0] * kbig})
     nok, reqs, meta, distinct = 0, [], [], set()
     for i, c in enumerate(cases):
         rootp = ctx.scratch / f"c09p_{i}"; roots = ctx.scratch / f"c09s_{i}"
@@ -76,7 +81,7 @@ def run(ctx):
             ctx.report(dict(sig, kind="call-error"), f"write_multiprocessing failed: parallel={resp.get('error')} single={ress.get('error')}", {"case": c}); continue
         # return values in argument order
         exp_first = [p[0][1][0] if p and p[0][1] else -1 for p in c["plans"]]
-        if [r[2] for r in resp["returns"]] != exp_first or [r[1] for r in resp["returns"]] != [sum(len(ids) for _, ids in p) for p in c["plans"]]:
+        if len(resp["returns"]) != len(c["plans"]) or [r[2] for r in resp["returns"]] != exp_first or [r[1] for r in resp["returns"]] != [sum(len(ids) for _, ids in p) for p in c["plans"]]:
             ctx.report(dict(sig, kind="return-order"), f"return values {resp['returns']} are not in argument order", {"case": c}); continue
         # recount oracle on the parallel result + check()
         problems, per_split = T.recount(rootp)
